@@ -332,6 +332,16 @@ def rule_line_positions(chk, prog, tier):
             if t[0] == 'TIDENT': got.setdefault(t[1], []).append((t[3], t[4]))
         bad = ['%s at %s, written at %s' % (n, got.get(n), w_) for n, w_ in wants.items() if got.get(n) != w_]
         r.instance(not bad, key, 'pp.c:ctxnext / expandfunc', '; '.join(bad))
+    # a string literal made by # is a token of the invocation: it carries a location inside it (a diagnostic about it must not read `(null):0:0`)
+    for src, line in (('#define S(x) #x\n\n  S(hello);\n', 3), ('#define S(x) #x\nint a;\nS(a  b)\n', 3), ('#define S(x) #x\n#define T(y) S(y)\n\n\n T(1 + 2);\n', 5), ('#define V(...) #__VA_ARGS__\n\nV(1, 2) V()\n', 3)):
+        run = pp_concrete(prog, src)
+        key = 'stringized-location:%r' % src
+        if run.outcome == 'unsupported': raise AnalysisBroken('%s: %s' % (key, run.detail))
+        if run.outcome != 'return':
+            r.instance(False, key, 'pp.c:expandfunc', 'valid input rejected: %s %s' % (run.outcome, run.detail)); continue
+        strs = [t for t in run.value if t[0] == 'TSTRINGLIT']
+        bad = ['%s at %s:%s:%s' % (t[1], t[2], t[3], t[4]) for t in strs if t[2] != 'in.c' or t[3] != line or not t[4] or t[4] < 1]
+        r.instance(bool(strs) and not bad, key, 'pp.c:expandfunc', 'the stringized token(s) must be located on line %d of in.c; got %s' % (line, bad or strs))
     # diagnostics the scanner itself raises
     for src, msg, want in (('int a;\nchar *s = "abc\n";\n', 'newline in string literal', (2, 14)), ("int c = 'a\n';\n", 'newline in character constant', (1, 11)),
                            ('int a;\n\n  @', None, None), ('/* x\n\n', 'EOF in comment', None)):
